@@ -906,6 +906,15 @@ impl Wallet {
         //
         // ... add inputs
         //
+        // the slip that gives the NFT its identity is now committed to this transaction: like the
+        // slips picked by generate_slips it leaves the wallet's spendable set
+        if let Some(slip) = self.slips.get_mut(&utxo_key) {
+            if !slip.spent {
+                slip.spent = true;
+                self.available_balance = self.available_balance.saturating_sub(slip.amount);
+            }
+        }
+        self.unspent_slips.remove(&utxo_key);
         transaction.add_from_slip(input_slip);
         for slip in additional_input_slips {
             transaction.add_from_slip(slip);
